@@ -151,6 +151,10 @@ class Codec:
         valid_idx = rawmsg.find(b"8=FIX.")
         if valid_idx == -1:
             assert silent, "no fix header"
+            # keep possible beginning of the next message header
+            for keep in range(5, 0, -1):
+                if rawmsg.endswith(b"8=FIX."[:keep]):
+                    return None, len(rawmsg) - keep, None
             return None, len(rawmsg), None
 
         parsed_length = valid_idx
@@ -158,11 +162,24 @@ class Codec:
         msg = rawmsg[valid_idx:].decode("latin-1")
 
         next_msg = msg[5:].find("8=FIX.")
-        if next_msg != -1:
+        has_next_msg = next_msg != -1
+        if has_next_msg:
             # Next fix message added, but incomplete
             next_msg += 5
         else:
             next_msg = len(msg)
+
+        # length to skip if current message is malformed
+        skip_length = valid_idx + next_msg
+
+        # message ends by CheckSum(10) field
+        is_complete = False
+        cks_idx = msg.find(self.SOH + "10=", 0, next_msg)
+        if cks_idx != -1:
+            cks_end = msg.find(self.SOH, cks_idx + 1, next_msg)
+            if cks_end != -1:
+                next_msg = cks_end + 1
+                is_complete = True
 
         encoded_msg = rawmsg[valid_idx : next_msg + valid_idx]
 
@@ -173,7 +190,7 @@ class Codec:
         # at a minimum we require BeginString, BodyLength & Checksum
         if len(msg) < 3:
             assert silent, "Minimum message"
-            return (None, parsed_length, None)
+            return (None, skip_length if has_next_msg else parsed_length, None)
 
         tag, value = msg[0].split("=", 1)
         if value != self.protocol.beginstring:
@@ -182,26 +199,28 @@ class Codec:
                 % (value, self.protocol.beginstring)
             )
             assert silent, "protocol beginstring mismatch"
-            return (None, len(rawmsg), None)
+            return (None, skip_length, None)
 
         toks = msg[1].split("=", 1)
         if len(toks) != 2:
             assert silent, f"BodyLength split error {msg}"
-            return (None, len(rawmsg), None)
+            return (None, skip_length, None)
         tag, value = toks
 
-        msg_length = len(msg[0]) + len(msg[1]) + len("10=000") + 3
         if tag != FTag.BodyLength:
             logging.error(f"*** BodyLength missing or not 2nd field *** [{tag}]: {msg}")
             assert silent, "2nd tag must be BodyLength"
-            return (None, len(rawmsg), None)
-        else:
-            msg_length += int(value)
+            return (None, skip_length, None)
+        if not (value.isascii() and value.isdigit()):
+            assert silent, f"BodyLength is not a number {msg}"
+            return (None, skip_length, None)
 
         # message looks incomplete
-        if msg_length > len(rawmsg):
+        if not is_complete:
             assert silent, "incomplete message"
-            return (None, parsed_length, None)
+            return (None, skip_length if has_next_msg else parsed_length, None)
+
+        msg_length = next_msg
 
         checksum_passed = False
         parsed_length += msg_length
@@ -215,16 +234,19 @@ class Codec:
             toks = m.split("=", 1)
             if len(toks) != 2:
                 assert silent, f"incomplete tag {m}"
-                return (None, len(rawmsg), None)
+                return (None, skip_length, None)
             tag, value = toks
+            if not (tag.isascii() and tag.isdigit()):
+                assert silent, f"incorrect tag {m}"
+                return (None, skip_length, None)
 
             if tag == FTag.CheckSum:
                 cheksum_base = self.SOH.join(msg[:-1])
                 checksum = (sum([ord(i) for i in cheksum_base]) + 1) % 256
 
-                if checksum != int(value):
+                if not (value.isascii() and value.isdigit()) or checksum != int(value):
                     logging.warning(
-                        "\tCheckSum: %s (INVALID) expecting %s" % (int(value), checksum)
+                        "\tCheckSum: %s (INVALID) expecting %s" % (value, checksum)
                     )
                     assert (
                         silent
